@@ -17,6 +17,9 @@ import sys
 
 VERIF = os.path.dirname(os.path.dirname(os.path.abspath(__file__)))
 SCRATCH = "/tmp/seeded-confirm"
+# the tree the patch is applied to for `detect` (default /repo; a scratch worktree of /repo may be given instead so that
+# /repo itself stays untouched while a long detection batch runs)
+TARGET = os.environ.get("TETL_ROOT", "/repo")
 
 
 def sh(cmd, **kw):
@@ -101,10 +104,10 @@ def cmd_confirm(name):
 def cmd_detect(name, props):
     d, meta = load(name)
     props = props or [meta["property"]]
-    if sh("git -C /repo status --porcelain --untracked-files=no").stdout.strip():
-        print("refusing: /repo has local modifications")
+    if sh("git -C %s status --porcelain --untracked-files=no" % TARGET).stdout.strip():
+        print("refusing: %s has local modifications" % TARGET)
         return 1
-    r = sh("git -C /repo apply %s" % os.path.join(d, "patch.diff"))
+    r = sh("git -C %s apply %s" % (TARGET, os.path.join(d, "patch.diff")))
     if r.returncode != 0:
         print("patch does not apply:", r.stderr)
         return 1
@@ -121,7 +124,7 @@ def cmd_detect(name, props):
             if m:
                 shutil.copy(os.path.join(VERIF, m.group(1)), os.path.join(d, "detected-%s.plan" % p))
     finally:
-        sh("git -C /repo checkout -- .")
+        sh("git -C %s checkout -- ." % TARGET)
     save(d, meta)
     return 0
 
